@@ -1,34 +1,62 @@
 #!/usr/bin/env python3
-"""seed_rerun.py [ids...] — re-run the checks against every kept seeded change, on a scratch worktree (never /repo).
-Updates seeded/<id>/meta.json (check_results, caught_by) and prints a table."""
-import json, os, subprocess, sys, glob, shutil
+"""seed_rerun.py [--jobs N] [ids...] — re-run the checks against every kept seeded change, on scratch worktrees (never /repo).
+Each worker has its own worktree and its own Kani scratch crate.  Updates seeded/<id>/meta.json (check_results, caught_by)
+and prints a table."""
+import json, os, subprocess, sys, glob, shutil, threading, queue
 HERE = os.path.dirname(os.path.dirname(os.path.abspath(__file__)))
-WT = "/tmp/wt_rerun"
+args = sys.argv[1:]
+jobs = 4
+if args and args[0] == "--jobs":
+    jobs = int(args[1]); args = args[2:]
 def sh(cmd, **kw):
     p = subprocess.run(cmd, shell=True, capture_output=True, text=True, **kw)
     return p.returncode, p.stdout + p.stderr
-sh("git -C /repo worktree remove --force %s" % WT)
-rc, out = sh("git -C /repo worktree add -f --detach %s HEAD" % WT)
-ids = sys.argv[1:] or [os.path.basename(d) for d in sorted(glob.glob(os.path.join(HERE, "seeded", "*-*")))]
-shutil.copy("/repo/Cargo.lock", WT + "/Cargo.lock") if not os.path.exists(WT + "/Cargo.lock") else None
-env = dict(os.environ, VERIF_REPO=WT, VERIF_EVIDENCE_DIR="/tmp/seed_evidence", VERIF_REPLAY_DIR="/tmp/seed_replays", VERIF_NO_REPLAY_SEARCH="1")
-try:
-    for i in ids:
-        d = os.path.join(HERE, "seeded", i)
-        m = json.load(open(os.path.join(d, "meta.json")))
-        sh("git -C %s checkout -- . && git -C %s clean -fdq" % (WT, WT))
-        rc, out = sh("git -C %s apply %s/patch.diff" % (WT, d))
-        if rc != 0:
-            print("%-8s PATCH DOES NOT APPLY to /repo HEAD: %s" % (i, out.strip()[-120:])); continue
-        props = [m["property"]] + [p for p in (m.get("check_results") or {}) if p != m["property"]]
-        res = {}
-        for p in props:
-            q = subprocess.run(["./check", p, "--tier", "quick"], cwd=HERE, env=env, capture_output=True, text=True)
-            lines = [l[:300] for l in q.stdout.splitlines() if l.startswith(("VIOLATION", "UNDECIDED", "property="))]
-            res[p] = {"exit": q.returncode, "lines": lines}
-        m["check_results"] = res
-        m["caught_by"] = [p for p, c in res.items() if c["exit"] == 1]
-        json.dump(m, open(os.path.join(d, "meta.json"), "w"), indent=1)
-        print("%-8s %s  %s" % (i, "caught by " + ",".join(m["caught_by"]) if m["caught_by"] else "NOT CAUGHT", {p: c["exit"] for p, c in res.items()}))
-finally:
-    sh("git -C /repo worktree remove --force %s" % WT)
+ids = args or [os.path.basename(d) for d in sorted(glob.glob(os.path.join(HERE, "seeded", "*-*")))]
+q = queue.Queue()
+for i in ids:
+    q.put(i)
+plock = threading.Lock()
+def worker(k):
+    wt = "/tmp/wt_rerun%d" % k
+    kc = "/var/tmp/ipcverif-kani-cache-w%d" % k
+    sh("git -C /repo worktree remove --force %s" % wt)
+    sh("git -C /repo worktree add -f --detach %s HEAD" % wt)
+    if not os.path.exists(wt + "/Cargo.lock"):
+        shutil.copy("/repo/Cargo.lock", wt + "/Cargo.lock")
+    if not os.path.exists(kc) and os.path.exists("/var/tmp/ipcverif-kani-cache"):
+        sh("cp -r /var/tmp/ipcverif-kani-cache %s" % kc)
+    env = dict(os.environ, VERIF_REPO=wt, VERIF_EVIDENCE_DIR="/tmp/seed_evidence%d" % k, VERIF_REPLAY_DIR="/tmp/seed_replays%d" % k,
+               VERIF_NO_REPLAY_SEARCH="1", VERIF_KANI_CACHE=kc)
+    try:
+        while True:
+            try:
+                i = q.get_nowait()
+            except queue.Empty:
+                return
+            d = os.path.join(HERE, "seeded", i)
+            m = json.load(open(os.path.join(d, "meta.json")))
+            sh("git -C %s checkout -- . && git -C %s clean -fdq -e Cargo.lock" % (wt, wt))
+            rc, out = sh("git -C %s apply %s/patch.diff" % (wt, d))
+            if rc != 0:
+                with plock:
+                    print("%-8s PATCH DOES NOT APPLY to /repo HEAD: %s" % (i, out.strip()[-120:]), flush=True)
+                continue
+            props = [m["property"]] + [p for p in (m.get("check_results") or {}) if p != m["property"]]
+            res = {}
+            for p in props:
+                r = subprocess.run(["./check", p, "--tier", "quick"], cwd=HERE, env=env, capture_output=True, text=True)
+                lines = [l[:300] for l in r.stdout.splitlines() if l.startswith(("VIOLATION", "UNDECIDED", "property="))]
+                res[p] = {"exit": r.returncode, "lines": lines}
+            m["check_results"] = res
+            m["caught_by"] = [p for p, c in res.items() if c["exit"] == 1]
+            json.dump(m, open(os.path.join(d, "meta.json"), "w"), indent=1)
+            with plock:
+                print("%-8s %s  %s" % (i, "caught by " + ",".join(m["caught_by"]) if m["caught_by"] else "NOT CAUGHT", {p: c["exit"] for p, c in res.items()}), flush=True)
+    finally:
+        sh("git -C /repo worktree remove --force %s" % wt)
+        shutil.rmtree(kc, ignore_errors=True)
+        shutil.rmtree("/tmp/seed_evidence%d" % k, ignore_errors=True)
+        shutil.rmtree("/tmp/seed_replays%d" % k, ignore_errors=True)
+ts = [threading.Thread(target=worker, args=(k,)) for k in range(jobs)]
+for t in ts: t.start()
+for t in ts: t.join()
